@@ -68,7 +68,7 @@ func vpC13Item(shape int, id IRI) Item {
 }
 
 // the component in which the ids of one pool differ: 0 path letter, 1 host letter, 2 port digit,
-// 3 query value (everything else equal)
+// 3 query value (everything else equal), 4-6 the opaque part of a urn, mailto or tag id
 var vpC13IDForm int
 
 func vpC13ID(c byte) IRI {
@@ -79,6 +79,12 @@ func vpC13ID(c byte) IRI {
 		return IRI("https://h.ex:80" + string([]byte{'0' + (c - 'a')}) + "/x")
 	case 3:
 		return IRI("https://h.ex/x?k=" + string([]byte{c}))
+	case 4: // ids that are not locators: no host, the distinguishing part is opaque
+		return IRI("urn:uuid:" + string([]byte{c}))
+	case 5:
+		return IRI("mailto:" + string([]byte{c}) + "@h.ex")
+	case 6:
+		return IRI("tag:h.ex,2020:" + string([]byte{c}))
 	}
 	return IRI("https://h.ex/" + string([]byte{c}))
 }
@@ -256,9 +262,9 @@ func vpH_C13_step_opage()      { vpC13Step(5, 2, 2) }
 func vpH_C13_step_rich_items() { vpC13Step(0, 1, -7) }
 func vpH_C13_step_rich_ocoll() { vpC13Step(3, 1, -7) }
 
-// ids that differ only in host, only in port, or only in a query value
+// ids that differ only in host, only in port, only in a query value, or only in their opaque part
 func vpH_C13_step_id_forms() {
-	vpC13IDForm = 1 + vpChoice(3)
+	vpC13IDForm = 1 + vpChoice(6)
 	kind := []int{0, 1, 3}[vpChoice(3)]
 	vpC13Step(kind, 1, 2)
 	vpC13IDForm = 0
